@@ -64,6 +64,9 @@ def cases(tier, seed):
         for op in BIN:
             for _ in range(1 if tier == 'quick' else 6):
                 out.append(dict(kind='scalar-operand', cfg=cfg, op=op, ka=list(rng.choice(pat.RND(d, 6, rng, max_len=3, min_len=1))), hseed=rng.randrange(10 ** 6)))
+    # the same pattern repeated in one and the same unusual spelling (names / range / numpy integers)
+    for cfg in (dict(p=2), dict(p=2, r=1), dict(p=3), dict(p=3, r=1)):
+        out.append(dict(kind='key-spellings', cfg=cfg))
     # registered(symbolic=True) functions of one and three arguments (the n-ary call path), and a counting wrapper
     for cfg in (dict(p=2), dict(p=2, r=1), dict(p=3)):
         for op in ('registered-sym1', 'registered-sym3', 'wrapped-gp', 'wrapped-inv', 'wrapped-registered', 'nested-registered', 'nested-registered-outer-first'):
@@ -231,6 +234,56 @@ def _run_failing(desc, V):
     return claims
 
 
+def _run_key_spellings(desc, V):
+    """the same key pattern repeated in exactly the same SPELLING (blade names or a range in direct indexing of an operator,
+    a range / numpy integers as the key sequence of an operand): every repetition after the first reuses the cached function.
+    (Whether two spellings of one pattern share an entry is not demanded.)"""
+    from kingdon.multivector import MultiVector
+    kapi.install_recorder()
+    kapi.reset_generation_counts()
+    alg = make_alg(desc['cfg'])
+    d = alg.d
+    names = list(alg.canon2bin)
+    vec = [n for n in names if len(n) == 2]
+    biv = [n for n in names if len(n) == 3]
+    claims = [Note('nontrivial', ''), Eq('history-completed', 1, 1)]
+
+    def repeat(label, call, n=3):
+        try:
+            first = call()
+        except Exception as e:  # noqa
+            return          # a spelling kingdon does not accept: nothing is cached, nothing is demanded
+        for i in range(n):
+            before = kapi.recorder_counts()
+            again = call()
+            after = kapi.recorder_counts()
+            diff = {k: after[k] - before[k] for k in after if after[k] != before[k]}
+            if diff:
+                claims.append(Fail(f'key-spellings[{label}]', f'{label}: repetition {i + 2} of the same spelling generated again: {diff}', fkey='key-spellings|events'))
+                return
+            if isinstance(first, tuple) and len(first) == 2 and callable(first[1]) and again[1] is not first[1]:
+                claims.append(Fail(f'key-spellings[{label}]:function', f'{label}: repeated lookups returned different function objects', fkey='key-spellings|function-identity'))
+                return
+
+    if len(vec) >= 2 and biv:
+        repeat('gp[names]', lambda: alg.gp[(vec[0], vec[1]), (biv[0],)])
+        repeat('sw[names]', lambda: alg.sw[(biv[0],), tuple(vec)])
+        repeat('reverse[names]', lambda: alg.reverse[(biv[0], vec[0])])
+        repeat('op[names-noncanonical-order]', lambda: alg.op[(vec[1], vec[0]), (vec[0],)])
+    n = min(4, 2 ** d)
+    repeat('gp[range]', lambda: alg.gp[range(n), range(n)])
+    repeat('neg[range]', lambda: alg.neg[range(n)])
+    xs = [MultiVector.fromkeysvalues(alg, range(n), [V.var(f'x{j}_{i}') for i in range(n)]) for j in range(3)]
+    it = iter(xs + xs)
+    repeat('operand-keys-range:gp', lambda: (lambda a: a * a)(next(it)), n=2)
+    it2 = iter(xs + xs)
+    repeat('operand-keys-range:reverse', lambda: ~next(it2), n=2)
+    ys = [MultiVector.fromkeysvalues(alg, tuple(np.int64(k) for k in range(n)), [V.var(f'y{j}_{i}') for i in range(n)]) for j in range(3)]
+    it3 = iter(ys + ys)
+    repeat('operand-keys-numpy-int:gp', lambda: (lambda a: a * a)(next(it3)), n=2)
+    return claims
+
+
 def _run_long(desc, V):
     from kingdon.multivector import MultiVector
     kapi.install_recorder()
@@ -354,6 +407,8 @@ def _values(kind, V, tag, n, rng):
 
 
 def run_case(desc, V):
+    if desc['kind'] == 'key-spellings':
+        return _run_key_spellings(desc, V)
     if desc['kind'] == 'long-history':
         return _run_long(desc, V)
     if desc['kind'] == 'failing-history':
